@@ -15,7 +15,7 @@ from pathlib import Path
 prop, k = sys.argv[1], sys.argv[2]
 skip_suite = "--skip-suite" in sys.argv
 tag = sys.argv[sys.argv.index("--tag") + 1] if "--tag" in sys.argv else ""
-wt = Path(f"/tmp/wt/{prop}b")
+wt = Path(sys.argv[sys.argv.index("--wt") + 1]) if "--wt" in sys.argv else Path(f"/tmp/wt/{prop}b")
 src = wt / "_out" / f"b{k}"
 PY = "/venv/bin/python"
 
